@@ -6,7 +6,7 @@
 (* canonical order, lookups, the collision-limit refusals) and prints every explored transition for replay.            *)
 EXTENDS MapFull, MapDict, Json
 
-CONSTANTS Keys, VSizes, MaxKeys, DigMode, EmitEdges, WithReads
+CONSTANTS Keys, VSizes, MaxKeys, DigMode, EmitEdges, EmitOneIn, WithReads
 
 VARIABLES tree, dict, nextId, hist, res
 mvars == <<tree, dict, nextId, hist, res, digv>>
@@ -28,7 +28,8 @@ NeverExternalGroupInMultiSlabTree == ~(tree.k = "m" /\ HasGroupKind(tree, "x"))
 NeverInlineGroupInMultiSlabTree == ~(tree.k = "m" /\ HasGroupKind(tree, "g"))
 NeverThreeLevels == ~(tree.k = "m" /\ tree.c[1].k = "m")
 KeysSeq == [k \in 1..Cardinality(Keys) |-> DigM(k)]
-Emit(h) == IF EmitEdges THEN PrintT(ToJson(h)) ELSE TRUE
+\* EmitOneIn > 1: print only a random sample of the explored transitions (the value of the conjunct is TRUE either way)
+Emit(h) == IF EmitEdges /\ (EmitOneIn <= 1 \/ RandomElement(1..EmitOneIn) = 1) THEN PrintT(ToJson(h)) ELSE TRUE
 Step(o) == hist' = Append(hist, o) /\ Emit(hist')
 
 Init == digv = [k \in Keys |-> DigM(k)] /\ tree = EmptyTree /\ dict = <<>> /\ nextId = 1 /\ hist = << <<"dig">> \o KeysSeq >> /\ res = MOk(0, FALSE)
